@@ -30,10 +30,13 @@ type Gen struct {
 	PeerRel  bool   // with Both: the peer's release section runs first
 	WK       bk.WriterKind
 	OchNote  string
+	// Intruder: while the second direction is still inside the tear-down window, a stream
+	// of a new shell arrives for the direction that has just been freed
+	Intruder bool
 }
 
 func (g Gen) String() string {
-	return fmt.Sprintf("bidir=%v attach=%s outfirst=%v load=%s first=%s how=%s both=%q peerrel=%v writer=%s", g.Bidir, g.Attach, g.OutFirst, g.Load, g.First, g.How, g.Both, g.PeerRel, g.WK)
+	return fmt.Sprintf("bidir=%v attach=%s outfirst=%v load=%s first=%s how=%s both=%q peerrel=%v writer=%s intruder=%v", g.Bidir, g.Attach, g.OutFirst, g.Load, g.First, g.How, g.Both, g.PeerRel, g.WK, g.Intruder)
 }
 
 var inHows = []string{"cancel", "werr", "ferr"}
@@ -70,6 +73,11 @@ func crossProduct() []Gen {
 							g.WK = bk.WFlushError
 						}
 						out = append(out, g)
+						if at == "full" && ld == "idle" {
+							gi := g
+							gi.Intruder = true
+							out = append(out, gi)
+						}
 						if at == "full" {
 							// both at once, either release order
 							peerHows := outHows
@@ -215,13 +223,32 @@ func (s *series) runGen(n int, g Gen) {
 	if g.First == "out" {
 		first, peer = out, in
 	}
-	_ = peer
 	if resume != nil {
 		x.AfterTrigger = resume
+	}
+	if g.Intruder && peer != nil && g.Both == "" {
+		x.Hold(peer)
 	}
 	x.End(first, g.How, g.Both, g.PeerRel)
 	if resume != nil {
 		resume()
+	}
+	if g.Intruder && peer != nil && g.Both == "" && peer.Held && !x.Stalled {
+		// inside the tear-down window: a new shell's stream for the freed direction.  It must not
+		// make a "ready" shell together with the dying one (judged below by the notice/event counts).
+		kind := "in"
+		if first.Dir == "output" {
+			kind = "out"
+		}
+		ia := x.Connect(kind, key+"-intruder", g.WK, false)
+		for _, st := range x.StreamsOf(ia) {
+			if st.Reason == bk.MsgNew { // it was attached after all: then it is part of what must be torn down
+				atts = append(atts, ia)
+			}
+		}
+		defer ia.CloseTransport()
+		s.r.Count("intruders_in_teardown_window", 1)
+		x.Unhold(peer)
 	}
 	if x.Stalled {
 		return
